@@ -1,25 +1,30 @@
 """C10 — ignore directives suppress exactly what they name, nothing else.
 
 Lean: Verif/C10/{Model,Theorems}.lean (parseDirective, parseDirectives, line/file ignore
-matching, filterIgnored incl. couldHaveMatched, success, the U1000 ignore rule).
+matching, filterIgnored incl. couldHaveMatched, success, the `ignores` loop of the U1000 graph).
 
-Ties (X):
+Ties (X), all against the current /repo tree:
  (a) in-process: generated (directives, diagnostics, allowed-checks) triples through the real
-     lintcmd.success/filterIgnored/parseDirectives (verif hook lintcmd/verif_c10.go), the real
-     lint.ParseDirectives, filepath.Match and strings.ToLower, compared with the Lean model;
- (b) end-to-end metamorphic: the real `staticcheck` binary on a fixed two-file package
-     (corpus/C10/pkg) with one directive inserted above a statement/declaration line, with and
-     without -show-ignored, under several -checks selections; the report is compared with the
-     prediction computed from the base report (by the Lean model and by the oracle).
+     lintcmd.success/filterIgnored/parseDirectives (verif hook lintcmd/verif_c10.go), generated
+     directive lists through the real unused.Graph on a synthetic package (op u1k, no hook), the
+     real lint.ParseDirectives, filepath.Match and strings.ToLower, compared with the Lean model;
+ (b) end-to-end metamorphic: the real `staticcheck` binary on renamed copies of a fixed two-file
+     package (corpus/C10/pkg; class Copies) with one directive inserted above a
+     statement/declaration line of each copy, with and without -show-ignored, under several
+     -checks selections; the report is compared with the prediction computed from the
+     directive-free report (by the Lean model and by the oracle).  Disagreements are re-run as a
+     package of their own before they are reported.
 
 Oracle: the property statement itself, evaluated in Python (`Spec`) on the real outputs,
 written independently of the Lean model (its own glob matcher, its own splitting).
+DEVIATIONS only *label* a failure (which of the three defect classes repaired in /repo it
+looks like, findings.d/C10.txt); they never excuse one.
 """
 import fnmatch
 import json
 import os
+import re
 import shutil
-import threading
 from concurrent.futures import ThreadPoolExecutor
 
 import vlib
@@ -28,6 +33,8 @@ MODULES = ["Verif.C10.Theorems"]
 THEOREMS = [
     "Verif.C10.ignored_iff",
     "Verif.C10.others_unchanged",
+    "Verif.C10.insert_directive",
+    "Verif.C10.insert_directive_added",
     "Verif.C10.no_reason_is_error",
     "Verif.C10.useless_reported_iff",
     "Verif.C10.added_eq",
@@ -37,6 +44,10 @@ THEOREMS = [
     "Verif.C10.couldHaveMatched_perm",
     "Verif.C10.success_spec",
     "Verif.C10.u1000_ignores_iff",
+    "Verif.C10.u1000_used_iff",
+    "Verif.C10.u1000_marked_iff",
+    "Verif.C10.u1000_no_reason",
+    "Verif.C10.parseDirectiveText_fields",
     "Verif.C10.glob_star",
     "Verif.C10.glob_literal",
 ]
@@ -319,6 +330,63 @@ def gen_comment(rng):
     return "//lint:" + gen_cmd(rng) + " " + lst + " " + "".join(rng.choice(LETTERS + "  ,") for _ in range(rng.below(12)))
 
 
+U_NAMES = ["U1000", "U1000", "u1000", "U1*", "U100?", "*", "SA4000", "u10*0", "U1000x", "U100", "?1000", "U*0", "", "S1002", "sa4*"]
+
+
+def gen_u1k(rng):
+    """directives over the synthetic package of the `u1k` op: files f<i>.go, one declaration
+    on each of the lines 3 … nlines+2"""
+    nfiles = 1 + rng.below(2)
+    nlines = 2 + rng.below(5)
+    dirs = []
+    for _ in range(rng.below(5)):
+        f = "f%d.go" % rng.below(nfiles)
+        nl = 3 + rng.below(nlines)
+        names = [case_variant(rng, rng.choice(U_NAMES)) if rng.chance(1, 3) else rng.choice(U_NAMES) for _ in range(1 + rng.below(3))]
+        args = [",".join(names)] + gen_reason(rng)
+        if rng.chance(1, 15):
+            args = []
+        dirs.append(Dir(gen_cmd(rng), args, (f, nl - 1, 1), (f, nl, 1)))
+    return nfiles, nlines, dirs
+
+
+def u1k_line(nfiles, nlines, dirs):
+    return " ".join(["u1k", str(nfiles), str(nlines), str(len(dirs))] + [enc_dir(d) for d in dirs])
+
+
+def u1k_expected(nfiles, nlines, dirs, dev=()):
+    out = []
+    for f in range(nfiles):
+        for l in range(3, nlines + 3):
+            if any(Spec.u1000_suppresses(d, "f%d.go" % f, l, dev) for d in dirs):
+                out.append(("f%d.go" % f, l))
+    return out
+
+
+def dec_marked(line):
+    t = line.split()
+    try:
+        n = int(t[0])
+        if len(t) != 1 + 2 * n:
+            return None
+        return [(dec_hex(t[1 + 2 * i]), int(t[2 + 2 * i])) for i in range(n)]
+    except (ValueError, IndexError):
+        return None
+
+
+def model_run(ctx, lines):
+    """Outputs of the compiled Lean model, or None when the Lean side is broken and the driver
+    cannot be used (the oracle is then evaluated without the model: violation search)."""
+    if not lines:
+        return []
+    try:
+        return vlib.run_model(ctx, "C10", lines)
+    except (vlib.HarnessError, OSError):
+        if ctx.lean_ok:
+            raise
+        return None
+
+
 # --------------------------------------------------------------------------- in-process phase
 def run_impl(ctx, binp, lines):
     rc, so, se = vlib.run([binp], input="".join(l + "\n" for l in lines), env=vlib.go_env(), timeout=1800)
@@ -404,8 +472,29 @@ def inprocess(ctx, binp, rng, n_fi, n_small, fails, mism, hist):
         lines.append("sup %s %s %d %s" % (enc_dir(d), hexs(g[0]), g[1], hexs(g[3])))
         meta.append(("sup", (d, g)))
 
+    # the ignores map of the U1000 graph (unused.Graph on a synthetic package)
+    u_corpus = [
+        (2, 4, [Dir("ignore", ["U1000", "r"], ("f0.go", 3, 1), ("f0.go", 4, 1))]),
+        (2, 4, [Dir("ignore", ["U1000"], ("f0.go", 3, 1), ("f0.go", 4, 1))]),
+        (2, 4, [Dir("file-ignore", ["U1000"], ("f0.go", 2, 1), ("f0.go", 3, 1))]),
+        (2, 4, [Dir("ignore", ["u1000", "r"], ("f0.go", 3, 1), ("f0.go", 4, 1))]),
+        (2, 4, [Dir("ignore", ["SA4000,U1*", "r"], ("f1.go", 4, 1), ("f1.go", 5, 1))]),
+        (2, 4, [Dir("file-ignore", ["*", "r"], ("f1.go", 2, 1), ("f1.go", 3, 1))]),
+        (2, 4, [Dir("file-ignore", ["U1000", "generated"], ("f0.go", 2, 1), ("f0.go", 3, 1)), Dir("ignore", ["U1000", "r"], ("f1.go", 5, 1), ("f1.go", 6, 1))]),
+        (1, 3, [Dir("Ignore", ["U1000", "r"], ("f0.go", 3, 1), ("f0.go", 4, 1)), Dir("ignore", ["U1000x,SA4000", "r"], ("f0.go", 4, 1), ("f0.go", 5, 1))]),
+    ]
+    for c in u_corpus:
+        lines.append(u1k_line(*c))
+        meta.append(("u1k", c))
+    for _ in range(n_small // 2):
+        c = gen_u1k(rng)
+        lines.append(u1k_line(*c))
+        meta.append(("u1k", c))
+
     impl = run_impl(ctx, binp, lines)
-    model = vlib.run_model(ctx, "C10", lines)
+    model = model_run(ctx, lines)
+    if model is None:
+        model = impl
     nontrivial = set()
     for (kind, c), line, im, mo in zip(meta, lines, impl, model):
         if mo == "bad-op" or im == "bad-op":
@@ -445,6 +534,25 @@ def inprocess(ctx, binp, rng, n_fi, n_small, fails, mism, hist):
                 nontrivial.add(line)
             if im != mo:
                 mism.append({"kind": "pd", "text": c, "impl": im, "model": mo})
+        elif kind == "u1k":
+            nfiles, nlines, dirs = c
+            got = dec_marked(im)
+            exp = u1k_expected(nfiles, nlines, dirs)
+            if exp:
+                nontrivial.add(line)
+                hist["u1k:some-marked"] = hist.get("u1k:some-marked", 0) + 1
+            if got != exp:
+                key = "u1000-graph"
+                for dev in DEVIATIONS[1:]:
+                    if got == u1k_expected(nfiles, nlines, dirs, (dev,)):
+                        key = dev
+                if key == "u1000-graph" and got == u1k_expected(nfiles, nlines, dirs, DEVIATIONS[1:]):
+                    key = "+".join(DEVIATIONS[1:])
+                fails.append({"kind": "u1k", "key": key, "line": line, "impl": im, "model": mo,
+                              "why": "declarations the U1000 graph counts as used because of the directives: expected %r, got %r (%s)" % (exp, got, im if got is None else ""),
+                              "input": {"files": nfiles, "lines": nlines, "directives": [d.obj() for d in dirs]}})
+            elif im != mo:
+                mism.append({"kind": "u1k", "line": line, "impl": im, "model": mo})
         elif kind == "sup":
             d, g = c
             exp = "1" if Spec.suppresses(d, g[0], g[1], g[3]) else "0"
@@ -500,26 +608,30 @@ def parse_report(stdout, root):
     return probs
 
 
-_tls = threading.local()
-
-
-def run_staticcheck(ctx, sc, pkgdir, cfg, show_ignored):
-    if not hasattr(_tls, "cache"):
-        _tls.cache = vlib.tempfile.mkdtemp(prefix="sccache", dir=ctx.scratch)
-    env = vlib.go_env({"STATICCHECK_CACHE": _tls.cache})
+def run_staticcheck_batch(ctx, sc, moddir, pkgs, cfg, show_ignored, cache):
+    """One run of the real binary over the packages `pkgs` (directories of the module in
+    `moddir`); returns {pkg: [problem]} with file names relative to the package."""
+    env = vlib.go_env({"STATICCHECK_CACHE": cache})
     cmd = [sc, "-f", "json"]
     if cfg:
         cmd += ["-checks", cfg]
     if show_ignored:
         cmd.append("-show-ignored")
-    cmd.append("./...")
-    rc, so, se = vlib.run(cmd, cwd=pkgdir, env=env, timeout=600)
+    cmd += ["./" + p for p in pkgs]
+    rc, so, se = vlib.run(cmd, cwd=moddir, env=env, timeout=1500)
     if rc not in (0, 1) or se.strip():
-        raise vlib.HarnessError("staticcheck failed in %s (%s): rc=%d %s" % (pkgdir, cfg, rc, se[-1500:]))
+        raise vlib.HarnessError("staticcheck failed in %s (%s, %d packages): rc=%d %s" % (moddir, cfg, len(pkgs), rc, se[-1500:]))
+    out = {p: [] for p in pkgs}
     try:
-        return parse_report(so, os.path.realpath(pkgdir))
+        probs = parse_report(so, os.path.realpath(moddir))
     except ValueError:
-        raise vlib.HarnessError("staticcheck output not JSON in %s: %s" % (pkgdir, so[-800:]))
+        raise vlib.HarnessError("staticcheck output not JSON in %s: %s" % (moddir, so[-800:]))
+    for p in probs:
+        parts = p[0].split(os.sep)
+        if len(parts) != 2 or parts[0] not in out:
+            raise vlib.HarnessError("problem outside the requested packages: %r" % (p,))
+        out[parts[0]].append((parts[1],) + tuple(p[1:]))
+    return out
 
 
 def target_lines(src_lines):
@@ -593,7 +705,7 @@ def e2e_generate(rng, n, sources, base):
         for f in sources:
             hot[(cfgname, f)] = sorted(set(p[1] for p in base[cfgname]["problems"] if p[0] == f))
     for _ in range(n):
-        cfgname = cfgnames[0] if rng.chance(1, 2) else rng.choice(cfgnames)
+        cfgname = cfgnames[0] if rng.chance(1, 5) else rng.choice(cfgnames)
         f = rng.choice(sorted(sources))
         # two thirds of the placements on lines that carry problems
         if rng.chance(2, 3) and hot[(cfgname, f)]:
@@ -646,16 +758,26 @@ def e2e_oracle(case, sources, base, dev=()):
     return kept, added, must_vanish, may_vanish, u, dirs
 
 
+def e2e_optional(added, must_vanish):
+    """The statement demands the "didn't match anything" problem for a directive that
+    suppresses *nothing*.  A line directive that did suppress a U1000 problem (and names
+    another enabled check that matched nothing) is outside that clause: the oracle accepts
+    the report with or without the problem.  (The code reports it, and so does the model.)"""
+    return [a for a in added if a[3] == "staticcheck"] if must_vanish else []
+
+
 def sev_word(s):
     return {"e": "error", "w": "warning", "i": "ignored"}[s]
 
 
-def e2e_compare(kept, added, must_vanish, may_vanish, u, real, show_ignored):
+def e2e_compare(kept, added, must_vanish, may_vanish, u, real, show_ignored, optional=()):
     """Compare a real report with a prediction. Returns list of discrepancy strings."""
     out = []
+    opt = [(a[0], a[1], a[2], a[3], a[4], "error") for a in optional]
     exp = [(k[0], k[1], k[2], k[3], k[4], sev_word(k[5])) for k in kept if show_ignored or k[5] != "i"]
     exp += [(a[0], a[1], a[2], a[3], a[4], "error") for a in added]
-    real_non_u = sorted(p for p in real if p[3] != "U1000")
+    exp = [p for p in exp if p not in opt]
+    real_non_u = sorted(p for p in real if p[3] != "U1000" and p not in opt)
     real_u = sorted(p for p in real if p[3] == "U1000")
     exp = sorted(exp)
     if real_non_u != exp:
@@ -683,39 +805,103 @@ def e2e_key(case, sources, base, r0, r1):
     for n in (1, 2, 3):
         for dev in itertools.combinations(DEVIATIONS, n):
             kept, added, mv, may, u, dirs = e2e_oracle(case, sources, base, dev)
-            if not e2e_compare(kept, added, mv, may, u, r0, False) and not e2e_compare(kept, added, mv, may, u, r1, True):
+            opt = e2e_optional(added, mv)
+            if not e2e_compare(kept, added, mv, may, u, r0, False, opt) and not e2e_compare(kept, added, mv, may, u, r1, True, opt):
                 return "+".join(dev)
     return "e2e"
 
 
+def insert_line(sources, f, L, text):
+    files = {fn: list(src) for fn, src in sources.items()}
+    indent = len(files[f][L - 1]) - len(files[f][L - 1].lstrip("\t"))
+    files[f].insert(L - 1, "\t" * indent + text)
+    return files
+
+
+CHUNK = 400   # cases per scratch module
+COPIES = 20   # cases per package
+TOPLEVEL = re.compile(r"^(?:func|var|type|const)\s+(\w+)", re.M)
+
+
+class Copies:
+    """Several placements share one package: copy k of the fixed package is the pair of files
+    a_k.go / b_k.go in which every package-level name N is renamed to N<K><k>; the copies
+    do not refer to each other.  A package made of such copies is one more package of the
+    property's quantifier, with one directive in each pair of files — and it costs the
+    analyzers' fixed per-package work once instead of COPIES times.  Reports are mapped
+    back (file a_k.go -> a.go of case k, names unsuffixed) and a directive-free control
+    copy in every package must reproduce the base report exactly (else HarnessError: the
+    copies are not independent and the batching is invalid)."""
+    def __init__(self, sources):
+        names = set()
+        for src in sources.values():
+            names.update(TOPLEVEL.findall("\n".join(src)))
+        self.pat = re.compile(r"\b(%s)\b" % "|".join(sorted(names, key=len, reverse=True)))
+
+    def rename(self, src_lines, k):
+        return [self.pat.sub(lambda m: m.group(1) + "K%d" % k, l) if not l.lstrip().startswith("//") else l for l in src_lines]
+
+    @staticmethod
+    def unname(msg, k):
+        return re.sub(r"(?<=\w)K%d\b" % k, "", msg)
+
+    def uncol(self, line_text, k, col):
+        """column in the original line of the byte that the renaming moved to column `col`"""
+        if line_text.lstrip().startswith("//"):
+            return col
+        s, shift = len("K%d" % k), 0
+        for m in self.pat.finditer(line_text):
+            if m.end() + shift + s <= col - 1:
+                shift += s
+            else:
+                break
+        return col - shift
+
+
 def end_to_end(ctx, sc, rng, n_cases, all_checks, non_default, fails, mism, hist):
+    """Placements are materialised in scratch modules and the real binary is run over a
+    module: once per -checks selection, with and without -show-ignored (the first run
+    analyses, the others read the cache).  See class Copies for how placements share
+    packages; disagreeing cases are re-run as a package of their own (exactly HOWTO["e2e"])
+    before anything is reported."""
     sources = {}
     for fn in ("a.go", "b.go"):
         sources[fn] = open(os.path.join(PKG, fn)).read().split("\n")
     gomod = open(os.path.join(PKG, "go.mod")).read()
+    cache = os.path.dirname(ctx.path("e2e", "sccache", "x"))
+    counter = [0]
+    copies = Copies(sources)
 
-    def materialise(name, files):
-        d = ctx.path("e2e", name, "go.mod")
+    def new_module():
+        counter[0] += 1
+        d = ctx.path("e2e", "mod%d" % counter[0], "go.mod")
         open(d, "w").write(gomod)
-        d = os.path.dirname(d)
+        return os.path.dirname(d)
+
+    def materialise(moddir, name, files):
+        d = os.path.join(moddir, name)
+        os.makedirs(d, exist_ok=True)
         for fn, src in files.items():
             open(os.path.join(d, fn), "w").write("\n".join(src))
-        return d
 
-    # base reports
+    groups = {}
+
+    # base report: one run with everything enabled; the report under another selection is its
+    # restriction to the enabled checks (verified below, on the same runs that serve the cases)
+    names = [CAL] + [n for n in CONFIGS if n != CAL]
+    bmod = new_module()
+    materialise(bmod, "base", sources)
+    base_all = run_staticcheck_batch(ctx, sc, bmod, ["base"], CONFIGS[CAL], False, cache)["base"]
+    nruns = [1]
     base = {}
-    based = materialise("base", sources)
-    for cfgname, cfg in CONFIGS.items():
-        r0 = run_staticcheck(ctx, sc, based, cfg, False)
-        r1 = run_staticcheck(ctx, sc, based, cfg, True)
-        if sorted(r0) != sorted(r1):
-            raise vlib.HarnessError("base report differs with -show-ignored although there is no directive")
-        allowed = allowed_for(cfg, all_checks, non_default)
-        for p in r0:
-            if p[3].lower() not in allowed or p[5] != "error":
-                raise vlib.HarnessError("base report of config %s has unexpected problem %r" % (cfgname, p))
+    for cfgname in names:
+        allowed = allowed_for(CONFIGS[cfgname], all_checks, non_default)
+        probs = [p for p in base_all if p[3].lower() in allowed]
+        for p in probs:
+            if p[5] != "error":
+                raise vlib.HarnessError("base report has unexpected problem %r" % (p,))
         dis = sorted(c for c in all_checks if c.lower() not in allowed)
-        base[cfgname] = {"problems": r0, "allowed": allowed,
+        base[cfgname] = {"problems": probs, "allowed": allowed,
                          "disabled_sample": [c for c in ("ST1003", "SA4000", "S1002", "S1008", "SA4003", "U1000", "SA1000") if c in dis] or dis[:3]}
     if len(base["default"]["problems"]) < 20:
         raise vlib.HarnessError("fixed package no longer has the expected problems: %r" % base["default"]["problems"])
@@ -725,44 +911,134 @@ def end_to_end(ctx, sc, rng, n_cases, all_checks, non_default, fails, mism, hist
     else:
         cases = e2e_corpus() + e2e_generate(rng, n_cases, sources, base)
 
-    # calibration: a line qualifies as a placement only if an inserted neutral comment leaves
-    # the report unchanged (some analyzers, e.g. S1008, read comments)
-    spots = sorted(set((c["file"], c["line"]) for c in cases))
+    def run_cases(idxs, ncopies):
+        """-> {i: [report, report with -show-ignored]} for the cases idxs, ncopies per package;
+        a package holds cases of one -checks selection and is run under that selection only
+        (first without -show-ignored: that run analyses; then with: that one reads the cache)"""
+        res = {}
+        for lo in range(0, len(idxs), CHUNK):
+            chunk = idxs[lo:lo + CHUNK]
+            mod = new_module()
+            materialise(mod, "base", sources)
+            where, texts, plan = {}, {}, []
+            for ci, cfgname in enumerate(names):
+                mine = [i for i in chunk if cases[i]["config"] == cfgname]
+                pkgs = []
+                for g in range(0, len(mine), ncopies):
+                    name = "s%dg%d" % (ci, g)
+                    pkgs.append(name)
+                    group = mine[g:g + ncopies]
+                    if ncopies == 1:
+                        materialise(mod, name, insert_line(sources, cases[group[0]]["file"], cases[group[0]]["line"], cases[group[0]]["text"]))
+                        where[group[0]] = (name, None)
+                        continue
+                    for i in group + [None]:          # None: the directive-free control copy
+                        k = i if i is not None else 10 ** 6 + g
+                        files = sources if i is None else insert_line(sources, cases[i]["file"], cases[i]["line"], cases[i]["text"])
+                        materialise(mod, name, {"%s_%d.go" % (fn[0], k): copies.rename(src, k) for fn, src in files.items()})
+                        where[i if i is not None else ("control", name)] = (name, k)
+                        texts[(name, k)] = files
+                        if i is not None:
+                            groups[i] = group
+                if pkgs or lo == 0:
+                    plan.append((cfgname, mine, pkgs))
 
-    def calibrate(spot):
-        f, L = spot
-        files = {fn: list(src) for fn, src in sources.items()}
-        indent = len(files[f][L - 1]) - len(files[f][L - 1].lstrip("\t"))
-        files[f].insert(L - 1, "\t" * indent + "// c10 neutral comment")
-        d = materialise("cal_%s_%d" % (f, L), files)
-        r = run_staticcheck(ctx, sc, d, CONFIGS[CAL], False)
-        shutil.rmtree(d, ignore_errors=True)
-        exp = sorted((p[0], p[1] + 1 if (p[0] == f and p[1] >= L) else p[1]) + tuple(p[2:]) for p in base[CAL]["problems"])
-        return sorted(r) == exp
+            def both(p):
+                cfgname, mine, pkgs = p
+                return [run_staticcheck_batch(ctx, sc, mod, ["base"] + pkgs, CONFIGS[cfgname], show, cache) for show in (False, True)]
 
-    with ThreadPoolExecutor(max_workers=vlib.NCPU) as ex:
-        calib = dict(zip(spots, ex.map(calibrate, spots)))
-    sensitive = sorted(s for s, ok in calib.items() if not ok)
-    if sensitive:
-        ctx.notes.append("placements excluded because a neutral comment there already changes the report: %r" % sensitive)
-        cases = [c for c in cases if calib[(c["file"], c["line"])]]
-    hist["e2e:calibration-runs"] = len(spots)
+            # one thread per selection; each run of the binary is itself parallel, but most of
+            # these runs are small (a few packages) and dominated by start-up
+            with ThreadPoolExecutor(max_workers=5) as ex:
+                outs = list(ex.map(both, plan))
+            nruns[0] += 2 * len(plan)
+            for (cfgname, mine, pkgs), pair in zip(plan, outs):
+                for show, out in zip((False, True), pair):
+                    expb = sorted(base[cfgname]["problems"])
+                    if sorted(out["base"]) != expb:
+                        raise vlib.HarnessError("report of the unmodified package under -checks %r%s is not the restriction of the full report to the enabled checks: %r" % (
+                            CONFIGS[cfgname], " -show-ignored" if show else "", out["base"]))
+                    split = {}
+                    for name in pkgs:
+                        for p in out[name]:
+                            m = re.match(r"([ab])_(\d+)\.go$", p[0])
+                            if ncopies == 1:
+                                split.setdefault((name, None), []).append(p)
+                            elif m:
+                                k = int(m.group(2))
+                                fn = m.group(1) + ".go"
+                                if (name, k) not in texts or not 1 <= p[1] <= len(texts[(name, k)][fn]):
+                                    raise vlib.HarnessError("problem at an unknown place: %r" % (p,))
+                                col = copies.uncol(texts[(name, k)][fn][p[1] - 1], k, p[2])
+                                split.setdefault((name, k), []).append((fn, p[1], col, p[3], Copies.unname(p[4], k), p[5]))
+                            else:
+                                raise vlib.HarnessError("problem in an unknown file: %r" % (p,))
+                    for i, key in where.items():
+                        if key[0] not in pkgs:
+                            continue
+                        if isinstance(i, tuple):
+                            if sorted(split.get(key, [])) != expb:
+                                control_bad.append((cfgname, show, [j for j in where if not isinstance(j, tuple) and where[j][0] == key[0]],
+                                                    sorted(split.get(key, [])), expb))
+                        else:
+                            res.setdefault(i, [None, None])[1 if show else 0] = split.get(key, [])
+            shutil.rmtree(mod, ignore_errors=True)
+        return res
 
-    def one(ic):
-        i, case = ic
-        f, L = case["file"], case["line"]
-        files = {fn: list(src) for fn, src in sources.items()}
-        indent = len(files[f][L - 1]) - len(files[f][L - 1].lstrip("\t"))
-        files[f].insert(L - 1, "\t" * indent + case["text"])
-        d = materialise("c%d" % i, files)
-        cfg = CONFIGS[case["config"]]
-        r0 = run_staticcheck(ctx, sc, d, cfg, False)
-        r1 = run_staticcheck(ctx, sc, d, cfg, True)
-        shutil.rmtree(d, ignore_errors=True)
-        return r0, r1
+    def control_verdict(cfgname, show, group, got, expb):
+        """The directive-free control copy of a package differs from the base report.  Either
+        the copies are not independent (harness invalid: HarnessError) — decided by the same
+        package with neutral comments in place of the directives — or directives in *other*
+        files changed the report of these files: a failing input of the property."""
+        mod = new_module()
+        k0 = 10 ** 6
+        for i in group + [None]:
+            k = i if i is not None else k0
+            files = sources if i is None else insert_line(sources, cases[i]["file"], cases[i]["line"], "// c10 neutral comment")
+            materialise(mod, "n", {"%s_%d.go" % (fn[0], k): copies.rename(src, k) for fn, src in files.items()})
+        out = run_staticcheck_batch(ctx, sc, mod, ["n"], CONFIGS[cfgname], show, cache)["n"]
+        nruns[0] += 1
+        ctl = []
+        for p in out:
+            m = re.match(r"([ab])_(\d+)\.go$", p[0])
+            if m and int(m.group(2)) == k0:
+                fn = m.group(1) + ".go"
+                ctl.append((fn, p[1], copies.uncol(sources[fn][p[1] - 1], k0, p[2]), p[3], Copies.unname(p[4], k0), p[5]))
+        shutil.rmtree(mod, ignore_errors=True)
+        if sorted(ctl) != expb:
+            raise vlib.HarnessError("renamed copies of the fixed package are not independent even without directives: %r vs %r" % (sorted(ctl), expb))
+        missing = [p for p in expb if p not in got]
+        extra = [p for p in got if p not in expb]
+        return {"kind": "e2e", "key": "other-files", "no_calibration": True, "case": cases[group[0]],
+                "why": "directives in other files of the package changed the problems of a pair of files that has no directive (%s%s): missing %r, unexpected %r" % (
+                    "-checks " + str(CONFIGS[cfgname]), " -show-ignored" if show else "", missing, extra),
+                "package_cases": [dict(cases[j], copy=j) for j in group], "control_report": [list(p) for p in got]}
 
-    with ThreadPoolExecutor(max_workers=vlib.NCPU) as ex:
-        results = list(ex.map(one, enumerate(cases)))
+    control_bad = []
+    everything = list(range(len(cases)))
+    copies_per_pkg = 1 if ctx.replay_cases is not None else int(os.environ.get("VERIF_C10_COPIES", COPIES))
+    got = run_cases(everything, copies_per_pkg)
+    results = [got[i] for i in everything]
+
+    # A placement qualifies only if an inserted neutral comment there leaves the report
+    # unchanged (some analyzers read comments, e.g. S1008).  Checked lazily, for the
+    # placements of cases that disagree with the prediction.
+    calib = {}
+
+    def calibrate(spots):
+        spots = [s for s in spots if s not in calib]
+        if not spots:
+            return
+        mod = new_module()
+        for k, (f, L) in enumerate(spots):
+            materialise(mod, "k%d" % k, insert_line(sources, f, L, "// c10 neutral comment"))
+        out = run_staticcheck_batch(ctx, sc, mod, ["k%d" % k for k in range(len(spots))], CONFIGS[CAL], False, cache)
+        nruns[0] += 1
+        for k, (f, L) in enumerate(spots):
+            exp = sorted((p[0], p[1] + 1 if (p[0] == f and p[1] >= L) else p[1]) + tuple(p[2:]) for p in base[CAL]["problems"])
+            calib[(f, L)] = sorted(out["k%d" % k]) == exp
+        shutil.rmtree(mod, ignore_errors=True)
+        hist["e2e:calibration-packages"] = hist.get("e2e:calibration-packages", 0) + len(spots)
 
     # model predictions: pd for the text, fi for the non-U1000 part, sup for U1000
     mlines, mslots = [], []
@@ -770,14 +1046,18 @@ def end_to_end(ctx, sc, rng, n_cases, all_checks, non_default, fails, mism, hist
         dpos, npos, non_u, u, allowed = e2e_predict_inputs(case, sources, base)
         mlines.append("pd " + hexs(case["text"]))
         mslots.append(("pd", case))
-    pd_out = vlib.run_model(ctx, "C10", mlines) if mlines else []
+    pd_out = model_run(ctx, mlines)
+    have_model = pd_out is not None
     mlines2, idx = [], []
-    for case, pdo in zip(cases, pd_out):
+    for case, pdo in zip(cases, pd_out if have_model else [None] * len(cases)):
         dpos, npos, non_u, u, allowed = e2e_predict_inputs(case, sources, base)
         if pdo == "bad-op":
             raise vlib.HarnessError("model rejected pd line for %r" % case)
         dirs = []
-        if pdo != "none":
+        if pdo is None:
+            parsed = py_parse_comment(case["text"])
+            dirs = [Dir(parsed[0], parsed[1], dpos, npos)] if parsed else []
+        elif pdo != "none":
             t = pdo.split()
             n = int(t[1])
             dirs = [Dir(dec_hex(t[0]), [dec_hex(x) for x in t[2:2 + n]], dpos, npos)]
@@ -790,29 +1070,33 @@ def end_to_end(ctx, sc, rng, n_cases, all_checks, non_default, fails, mism, hist
             # does the directive make the U1000 graph ignore anything at all: ask about its own node
             mlines2.append("sup %s %s %d %s" % (enc_dir(dirs[0]), hexs(npos[0]), npos[1], hexs("U1000")))
         idx.append((start, len(mlines2), dirs))
-    m_out = vlib.run_model(ctx, "C10", mlines2) if mlines2 else []
+    m_out = model_run(ctx, mlines2) if have_model else None
+    have_model = have_model and m_out is not None
 
     nontrivial = set()
     samples = []
-    for i, (case, (r0, r1)) in enumerate(zip(cases, results)):
+
+    def judge(i, r0, r1):
+        case = cases[i]
         dpos, npos, non_u, u, allowed = e2e_predict_inputs(case, sources, base)
         kept, added, must_vanish, may_vanish, _, dirs = e2e_oracle(case, sources, base)
+        optional = e2e_optional(added, must_vanish)
         problems = []
         for show, real in ((False, r0), (True, r1)):
-            for msg in e2e_compare(kept, added, must_vanish, may_vanish, u, real, show):
+            for msg in e2e_compare(kept, added, must_vanish, may_vanish, u, real, show, optional):
                 problems.append(("-show-ignored: " if show else "default: ") + msg)
         # model
-        start, end, mdirs = idx[i]
-        mo = dec_diags(m_out[start])
-        if mo is None:
-            raise vlib.HarnessError("model output unparseable: %s" % m_out[start][:200])
-        mkept, madded = mo[:len(non_u)], mo[len(non_u):]
-        mvanish = [p for p, o in zip(u, m_out[start + 1:end - 1]) if o == "1"] if mdirs else []
-        mmay = m_out[end - 1] == "1" if mdirs else False
         mproblems = []
-        for show, real in ((False, r0), (True, r1)):
-            mproblems += e2e_compare(mkept, madded, mvanish, mmay, u, real, show)
-        # histogram
+        if have_model:
+            start, end, mdirs = idx[i]
+            mo = dec_diags(m_out[start])
+            if mo is None:
+                raise vlib.HarnessError("model output unparseable: %s" % m_out[start][:200])
+            mkept, madded = mo[:len(non_u)], mo[len(non_u):]
+            mvanish = [p for p, o in zip(u, m_out[start + 1:end - 1]) if o == "1"] if mdirs else []
+            mmay = m_out[end - 1] == "1" if mdirs else False
+            for show, real in ((False, r0), (True, r1)):
+                mproblems += e2e_compare(mkept, madded, mvanish, mmay, u, real, show)
         cls = "none"
         if dirs and Spec.malformed(dirs[0]):
             cls = "malformed"
@@ -826,12 +1110,6 @@ def end_to_end(ctx, sc, rng, n_cases, all_checks, non_default, fails, mism, hist
             cls = "useless-reported"
         elif dirs and Spec.wf(dirs[0]):
             cls = "useless-silent"
-        hist["e2e:" + cls] = hist.get("e2e:" + cls, 0) + 1
-        hist["e2e:cfg:" + case["config"]] = hist.get("e2e:cfg:" + case["config"], 0) + 1
-        if cls != "none":
-            nontrivial.add((case["file"], case["line"], case["text"], case["config"]))
-        if len(samples) < 5 and i % max(1, len(cases) // 5) == 0:
-            samples.append({"case": case, "class": cls, "report_without_show_ignored": [list(p) for p in r0 if p[3] != "U1000"][:6]})
         rec = {"kind": "e2e", "case": case, "directive": dirs[0].obj() if dirs else None,
                "report_default": [list(p) for p in r0], "report_show_ignored": [list(p) for p in r1],
                "expected_kept": [list(k) for k in kept], "expected_added": [list(a) for a in added],
@@ -839,10 +1117,61 @@ def end_to_end(ctx, sc, rng, n_cases, all_checks, non_default, fails, mism, hist
         if problems:
             rec["key"] = e2e_key(case, sources, base, r0, r1)
             rec["why"] = "; ".join(problems)
-            fails.append(rec)
         elif mproblems:
             rec["model_disagreement"] = mproblems
-            mism.append(rec)
+        return cls, bool(optional), rec
+
+    judged = {}
+    for i, (r0, r1) in enumerate(results):
+        judged[i] = judge(i, r0, r1)
+        cls, optional, rec = judged[i]
+        case = cases[i]
+        hist["e2e:" + cls] = hist.get("e2e:" + cls, 0) + 1
+        hist["e2e:cfg:" + case["config"]] = hist.get("e2e:cfg:" + case["config"], 0) + 1
+        if optional:
+            hist["e2e:useless-report-optional"] = hist.get("e2e:useless-report-optional", 0) + 1
+        if cls != "none":
+            nontrivial.add((case["file"], case["line"], case["text"], case["config"]))
+        if len(samples) < 5 and i % max(1, len(cases) // 5) == 0:
+            samples.append({"case": case, "class": cls, "report_without_show_ignored": [list(p) for p in r0 if p[3] != "U1000"][:6]})
+
+    # every disagreement is re-run as a package of its own before it is reported
+    bad = [i for i in everything if "why" in judged[i][2] or "model_disagreement" in judged[i][2]]
+    pending_f, pending_m = [], []
+    if bad and copies_per_pkg != 1:
+        hist["e2e:rerun-single-package"] = len(bad)
+        again = run_cases(bad[:60], 1)
+        for i in bad:
+            if i not in again:
+                continue
+            rec_batch = judged[i][2]
+            rec = judge(i, *again[i])[2]
+            if "why" not in rec and "model_disagreement" not in rec and "why" in rec_batch:
+                # holds for the package alone, fails among the copies: still a failing input
+                rec_batch["key"] = "multi-file-package"
+                rec_batch["why"] = "only in the package of up to %d renamed copies (class Copies; VERIF_SEED=%d, tier %s): %s" % (
+                    copies_per_pkg, ctx.seed, ctx.tier, rec_batch["why"])
+                rec_batch["package_cases"] = [dict(cases[j], copy=j) for j in groups.get(i, [])]
+                pending_f.append(rec_batch)
+            else:
+                judged[i] = (judged[i][0], judged[i][1], rec)
+    for i in bad:
+        rec = judged[i][2]
+        if rec.get("key") == "multi-file-package":
+            continue
+        if "why" in rec:
+            pending_f.append(rec)
+        elif "model_disagreement" in rec:
+            pending_m.append(rec)
+    for cb in control_bad[:3]:
+        pending_f.append(control_verdict(*cb))
+    calibrate(sorted(set((r["case"]["file"], r["case"]["line"]) for r in pending_f + pending_m if not r.get("no_calibration"))))
+    sensitive = sorted(sp for sp, ok in calib.items() if not ok)
+    if sensitive:
+        ctx.notes.append("disagreements discarded at placements where a neutral comment already changes the report: %r" % sensitive)
+    fails += [r for r in pending_f if r.get("no_calibration") or calib[(r["case"]["file"], r["case"]["line"])]]
+    mism += [r for r in pending_m if calib[(r["case"]["file"], r["case"]["line"])]]
+    hist["e2e:binary-runs"] = nruns[0]
     return 2 * len(cases), nontrivial, samples, len(cases)
 
 
@@ -851,11 +1180,14 @@ HOWTO = {
     "fi": "echo '<line>' | go run -tags verif ./cmd/c10filter (in /verif/harness) gives the real filterIgnored output; "
           "echo '<line>' | lean/.lake/build/bin/c10driver gives the model's; protocol in lean/Verif/C10/Driver.lean",
     "sup": "as for fi (op sup)",
+    "u1k": "as for fi (op u1k): the real unused.Graph on the synthetic package described in harness/cmd/c10filter/main.go (func u1k)",
     "e2e": "copy corpus/C10/pkg, insert case.text (indented like the target) above line case.line of case.file, run "
            "`staticcheck -f json [-checks <CONFIGS[case.config]>] [-show-ignored] ./...` and compare with the run on the unmodified copy",
 }
 
 KEY_TEXT = {
+    "other-files": "a directive changed problems of files other than its own (package of renamed copies of corpus/C10/pkg, class Copies in checks/c10.py; the copies are listed in package_cases)",
+    "multi-file-package": "the statement fails for a placement only when the package holds further renamed copies of the two files with directives of their own (class Copies in checks/c10.py)",
     "useless-u1000-order": "whether a useless line directive is reported depends on where U1000 stands in its check list",
     "u1000-no-reason": "a U1000 directive without a reason is reported as malformed but still suppresses U1000 problems",
     "u1000-name-match": "a directive whose name matches U1000 only as a glob or in another case does not suppress the U1000 problem on its line",
@@ -864,22 +1196,36 @@ KEY_TEXT = {
 
 
 def run(ctx):
+    import time
+    phases = {}
+    t_last = [time.time()]
+
+    def lap(name):
+        now = time.time()
+        phases[name] = round(now - t_last[0], 1)
+        t_last[0] = now
+
     ctx.replay_cases = None
     if ctx.replay:
         rp = json.load(open(ctx.replay))
         ctx.replay_cases = rp.get("cases", [])
-    lean_ok, lean_broke = vlib.std_lean_phase(ctx, MODULES, THEOREMS)
-    binp = vlib.build_harness(ctx, "c10filter")
-    sc = vlib.build_repo_cmd(ctx, "./cmd/staticcheck")
+    # the Lean phase and the two Go builds are independent: run them side by side
+    with ThreadPoolExecutor(max_workers=3) as ex:
+        f_lean = ex.submit(vlib.std_lean_phase, ctx, MODULES, THEOREMS)
+        f_bin = ex.submit(vlib.build_harness, ctx, "c10filter")
+        f_sc = ex.submit(vlib.build_repo_cmd, ctx, "./cmd/staticcheck")
+        lean_ok, lean_broke = f_lean.result()
+        binp, sc = f_bin.result(), f_sc.result()
     rc, so, se = vlib.run([sc, "-list-checks"], env=vlib.go_env())
     all_checks = [l.split()[0] for l in so.splitlines() if l.strip()]
     rc2, so2, se2 = vlib.run([binp, "-nondefault"], env=vlib.go_env())
     if rc != 0 or rc2 != 0 or len(all_checks) < 100:
         raise vlib.HarnessError("cannot list checks: %s %s" % (se, se2))
     non_default = set(so2.split())
+    lap("lean build+audit, go builds")
 
     rng = vlib.SplitMix(ctx.seed).fork("C10")
-    n_fi, n_small, n_e2e = (30000, 4000, 330) if ctx.quick else (300000, 40000, 6000)
+    n_fi, n_small, n_e2e = (30000, 4000, 110) if ctx.quick else (200000, 20000, 2000)
     # development knobs (defaults are the fixed case counts above)
     n_e2e = int(os.environ.get("VERIF_C10_E2E", n_e2e))
     n_fi = int(os.environ.get("VERIF_C10_FI", n_fi))
@@ -889,24 +1235,45 @@ def run(ctx):
     nontriv = 0
     n_cli = 0
     if ctx.replay_cases is not None:
-        lines = [c["line"] for c in ctx.replay_cases if c.get("kind") in ("fi", "sup")]
+        lines = [c["line"] for c in ctx.replay_cases if c.get("kind") in ("fi", "sup", "u1k")]
         if lines:
             impl = run_impl(ctx, binp, lines)
-            model = vlib.run_model(ctx, "C10", lines)
+            model = model_run(ctx, lines) or ["model unavailable"] * len(lines)
             for l, im, mo in zip(lines, impl, model):
                 print("replay: impl=%s\n        model=%s" % (im, mo))
                 if im != mo:
                     fails.append({"kind": "fi", "key": "replay", "why": "real code and proved model disagree", "line": l, "impl": im, "model": mo})
             evals += len(lines)
-    else:
-        n, nt, sm = inprocess(ctx, binp, rng.fork("inprocess"), n_fi, n_small, fails, mism, hist)
-        evals += n
-        nontriv += len(nt)
-        samples += sm
-    n, nt, sm, n_cli = end_to_end(ctx, sc, rng.fork("e2e"), n_e2e, all_checks, non_default, fails, mism, hist)
+    # the two phases are independent (separate random streams, separate scratch files); the
+    # end-to-end phase mostly waits for the binary, so the in-process phase runs beside it
+    fails_ip, mism_ip, hist_ip = [], [], {}
+    with ThreadPoolExecutor(max_workers=1) as ex:
+        f_ip = None
+        if ctx.replay_cases is None:
+            f_ip = ex.submit(inprocess, ctx, binp, rng.fork("inprocess"), n_fi, n_small, fails_ip, mism_ip, hist_ip)
+        n, nt, sm, n_cli = end_to_end(ctx, sc, rng.fork("e2e"), n_e2e, all_checks, non_default, fails, mism, hist)
+        lap("end-to-end (in-process phase beside it)")
+        if f_ip is not None:
+            n2, nt2, sm2 = f_ip.result()
+            lap("rest of in-process")
+            evals += n2
+            nontriv += len(nt2)
+            samples += sm2
+            fails[:0] = fails_ip
+            mism[:0] = mism_ip
+            hist.update(hist_ip)
     evals += n
     nontriv += len(nt)
     samples += sm
+
+    # violation search: the model and the code disagree, or a proof no longer builds, but the
+    # statement held on everything explored so far -> three times as many generated inputs
+    # (another stream of the same seed) through the oracle before saying "no failing input"
+    if not fails and (mism or not lean_ok) and ctx.replay_cases is None:
+        n, nt, sm = inprocess(ctx, binp, rng.fork("search"), 3 * n_fi, 3 * n_small, fails, [], {})
+        evals += n
+        ctx.notes.append("violation search run: %d further in-process inputs through the oracle, %d failing" % (n, len(fails)))
+        lap("violation search")
 
     ctx.coverage.update({
         "evaluations": evals,
@@ -917,7 +1284,8 @@ def run(ctx):
         "histogram": dict(sorted(hist.items())),
         "samples": samples[:10],
         "cli_cases": n_cli,
-        "cli_runs": 2 * n_cli + 2 * len(CONFIGS),
+        "phase_wall_s": phases,
+        "cli_runs": hist.get("e2e:binary-runs", 0),
         "configs": CONFIGS,
     })
     ctx.assumptions += [
@@ -956,8 +1324,33 @@ def run(ctx):
 
 META = {
     "level": "proof",
-    "technique": "Lean 4 theorems over a transliterated model of parseDirectives/filterIgnored/ignore matching; executable correspondence in-process (verif hook) and end-to-end metamorphic runs of the real staticcheck binary",
-    "text": "ignored_iff, others_unchanged, no_reason_is_error, useless_reported_iff and added_eq are proved for all diagnostic lists, directive lists and check selections over the Lean model of lintcmd's directive handling; the model is tied to the code by running generated (directives, diagnostics, allowed) triples through the real filterIgnored and by inserting directives into a fixed package and comparing the real binary's reports (with and without -show-ignored, several -checks selections) with the model's prediction from the base report.",
-    "note": "Trusted: Lean kernel (axioms propext/Classical.choice/Quot.sound), compiled c10driver, harness/cmd/c10filter, the verif hook lintcmd/verif_c10.go (wrappers only), filepath.Match/strings.ToLower/go/ast comment maps (modelled or assumed, compared on generated inputs).",
-    "design_ref": "DESIGN.md section 5, C10",
+    "technique": "Lean 4 theorems over a transliterated model of analysis/lint.parseDirective, lintcmd.parseDirectives, "
+                 "lineIgnore/fileIgnore.match, filterIgnored (incl. couldHaveMatched), success and the `ignores` loop of "
+                 "unused.(*graph).entry; executable correspondence in-process (verif hook lintcmd/verif_c10.go; unused.Graph "
+                 "without hook) and end-to-end metamorphic runs of the real staticcheck binary",
+    "text": "Proved for all diagnostic lists, directive lists and check selections over the model: filterIgnored_eq (the "
+            "transliterated loops compute the declarative specification), ignored_iff (a problem is ignored iff a well-formed "
+            "directive in its file, on its line unless file-wide, names its check by a case-folded glob), others_unchanged and "
+            "insert_directive / insert_directive_added (inserting a directive changes nothing but the severity of the problems it "
+            "suppresses and may add only its own malformed/useless problem), no_reason_is_error and u1000_no_reason (a directive "
+            "without a reason is a compile error and suppresses nothing, also in the U1000 graph), useless_reported_iff and "
+            "couldHaveMatched_perm (a line directive that suppressed nothing is reported iff it names an enabled check other than "
+            "U1000, whatever the order of its names), u1000_marked_iff (the U1000 graph counts the object at file:line as used "
+            "because of a directive iff the directive would suppress a U1000 problem there by the same rule), "
+            "parseDirectiveText_fields (how the comment text is read). The model is tied to the current /repo on every run: "
+            "30k generated (directives, diagnostics, enabled checks) triples through the real success/filterIgnored/"
+            "parseDirectives, generated directive lists through the real unused.Graph on a synthetic package, comment texts "
+            "through the real lint.ParseDirectives, globs through the real filepath.Match, all compared with the compiled "
+            "model and with an independent Python transcription of the statement; and end-to-end by inserting one directive "
+            "per copy of a fixed two-file package (every statement/declaration line; exact ids, globs, wrong case, other checks, "
+            "U1000, disabled checks; with and without reason; five -checks selections) and comparing the real binary's reports "
+            "with and without -show-ignored with the prediction from the directive-free report. Explored, not proved: which "
+            "syntax node a comment attaches to (go/ast comment maps), the U1000 graph beyond its ignore rule (what becomes used "
+            "through an ignored object), the analyzers that produce the problems, sorting/deduplication of the output.",
+    "note": "Trusted: Lean kernel (axioms propext/Classical.choice/Quot.sound), compiled c10driver, harness/cmd/c10filter, the "
+            "verif hook lintcmd/verif_c10.go (wrappers only), the Python oracle in checks/c10.py; filepath.Match (letters, digits, "
+            "*, ? only), strings.ToLower/Split on ASCII and go/ast.NewCommentMap are modelled or assumed and compared on generated "
+            "inputs. Three defects found and fixed in /repo (findings.d/C10.txt): U1000 order dependence of the useless-directive "
+            "report, U1000 directives without a reason still honoured, U1000 names matched exactly instead of as case-folded globs.",
+    "design_ref": "DESIGN.md section 5, C10; section 6 row 8",
 }
